@@ -29,6 +29,9 @@ var c13Sigma = func() []string {
 	s = append(s, "RETR 2 !hangup", "LIST !hangup")
 	// QUIT, and the client is gone before the answer can be written: QUIT was issued all the same
 	s = append(s, "QUIT !noread")
+	// the client falls silent until the server's idle timeout (600 s of the bubble's clock) ends
+	// the session: that is no QUIT, nothing is removed
+	s = append(s, "!idle")
 	// a login whose spelling differs from the mailbox name it maps to (upper case, +tag, domain)
 	s = append(s, "USER U+tag@x.test")
 	// one over-long command line whose bytes from a reader-buffer boundary on read like a command
@@ -201,7 +204,7 @@ func c13Exec(c *fw.Ctx, be string, nmsgs int, seq []int, checkAll bool) (key str
 		for si, oi := range seq {
 			last := si == len(seq)-1 || checkAll
 			line := c13Sigma[oi]
-			if strings.HasPrefix(line, "!") {
+			if strings.HasPrefix(line, "!") && line != "!idle" {
 				switch {
 				case line == "!deliver":
 					deliver("Subject: late\r\n\r\nlate arrival\r\n")
@@ -230,6 +233,22 @@ func c13Exec(c *fw.Ctx, be string, nmsgs int, seq []int, checkAll bool) (key str
 					}
 				}
 				continue
+			}
+			if line == "!idle" {
+				log = append(log, "C: (silent for 601 s)")
+				time.Sleep(601 * time.Second)
+				if p := k.Pending(); p != "" {
+					log = append(log, "S: "+strings.TrimSpace(p))
+				}
+				if !k.Ended() {
+					fail("idle|session-survives-timeout", "after 601 s of silence the session is still open (idle timeout 600 s)")
+					break
+				}
+				if inTxn && last {
+					nontrivial = true
+				}
+				ended = true // without QUIT: nothing may be removed
+				break
 			}
 			if line == "QUIT !noread" {
 				log = append(log, "C: QUIT   [and hangs up without reading the answer]")
@@ -576,7 +595,7 @@ func c13Explore(c *fw.Ctx, be string, nm int, loggedIn bool) {
 			for i, l := range c13Sigma {
 				switch l {
 				case "STAT", "LIST", "UIDL", "RSET", "NOOP", "QUIT", "XY", " ", "DELE 1", "DELE 2", "DELE 99", "RETR 1", "RETR 2",
-					"LIST 1", "UIDL 2", "TOP 1 1", "!deliver", "!extdel 1", "!extdel 2", "RETR 2 !hangup", "LIST !hangup", "QUIT !noread":
+					"LIST 1", "UIDL 2", "TOP 1 1", "!deliver", "!extdel 1", "!extdel 2", "RETR 2 !hangup", "LIST !hangup", "QUIT !noread", "!idle":
 					alpha = append(alpha, i)
 				}
 				if len(l) > 4000 {
